@@ -26,7 +26,7 @@ from hypothesis import strategies as st
 
 from pbt import scenes
 from pbt.engine import Skip, Sub
-from pbt.oracles.longsims import collect
+from pbt.oracles.longsims import collect, scaled
 
 ID = "C36"
 RULE = (
@@ -38,7 +38,7 @@ RULE = (
     "polarisation became non-zero (or, for the zero-strength variant, the fields are non-zero). "
     "bounded: pole shapes (1..3 isotropic poles, w0 dt, damping*dt, relative strengths) are drawn and their strengths "
     "scaled so that the coupled-scheme load L = sum_p K_p dt^2 / (4 - w0p^2 dt^2) / (eps_inf - courant^2) lands on a "
-    "drawn target in {0.05 .. 0.9, 1.05 .. 20}; courant factor {0.5, 0.7, 0.9, 0.99}, eps_inf 1..4, medium fills the "
+    "drawn target in {0.05 .. 0.89, 1.1, 3}; courant factor {0.5, 0.7, 0.9, 0.99}, eps_inf 1..4, medium fills the "
     "domain or a sub-box (mask) in a vacuum/dielectric background, per-axis periodic or PEC walls, 5..7 cells; every "
     "case is a 10^4-step run and non-trivial when the initial energy is > 0 and placement raised/warned nothing. "
     "Distinct = sha1 of the case JSON."
@@ -322,28 +322,49 @@ def body_recurrence(ctx, case):
 # (b) boundedness
 # ----------------------------------------------------------------------------------------------
 def load_factor(poles, eps_inf, courant, mu=1.0):
-    """Coupled ADE-FDTD (explicit E^n coupling) von Neumann bound of a homogeneous passive medium on a 3-D Yee grid:
-    all roots stay on the unit circle iff  sum_p K_p dt^2 / (4 - w0p^2 dt^2)  <=  eps_inf - courant_factor^2 / mu
-    (lossless poles; damping moves the threshold by < 1 % — measured).  Returns lhs / rhs: > 1 grows exponentially,
-    and just below 1 the plain field energy already swings by more than a factor 10."""
+    """lhs / rhs of the coupled ADE-FDTD bound  sum_p K_p dt^2 / (4 - w0p^2 dt^2) <= eps_inf - courant_factor^2 / mu
+    (von Neumann analysis of a homogeneous passive medium on the 3-D Yee grid whose polarisation recurrence is driven
+    by E^n; lossless poles — damping moves the threshold by < 1 %, measured).  > 1: exponential growth."""
+    lhs = _pole_load(poles)
+    rhs = eps_inf - courant ** 2 / mu
+    return lhs / rhs if rhs > 0 else float("inf")
+
+
+def _pole_load(poles):
     lhs = 0.0
     for p in poles:
         if p["type"] == "lorentz":
             lhs += p["de"] * p["w"] ** 2 / (4.0 - p["w"] ** 2)
         else:
             lhs += p["wp"] ** 2 / 4.0
-    rhs = eps_inf - courant ** 2 / mu
-    return lhs / rhs if rhs > 0 else float("inf")
+    return lhs
+
+
+def stability_margin(poles, eps_inf, courant, mu=1.0):
+    """1 - (courant_factor^2 / mu + sum_p K_p dt^2 / (4 - w0p^2 dt^2)) / eps_inf: normalised distance to the coupled
+    stability limit.  < 0: unstable (measured: overflow to inf within 10^2..10^4 steps).  0 .. ~0.003: bounded, but the
+    plain field energy swings by more than a factor 10 (measured 9.9 at 0.002, 13 at 0.0014, 21 at 0.0008; <= 7.9 over
+    12 seeds at 0.004, <= 4.9 at 0.01; plain vacuum at courant 0.99 has 0.0199 and swings by 2.6..4.1)."""
+    return 1.0 - (courant ** 2 / mu + _pole_load(poles)) / eps_inf
+
+
+MARGIN_CLASS = 0.008
 
 
 def overloaded_medium(case):
-    """KNOWN_CLASSES predicate: the scene contains a passive medium within 10 % of (or beyond) the coupled bound."""
-    return "poles" in case and "target" in case and load_factor(case["poles"], case["eps_inf"], case["courant"]) >= 0.9
+    """KNOWN_CLASSES predicate: the scene contains a passive Lorentz/Drude medium beyond, or within 0.008 (normalised)
+    of, the coupled ADE-FDTD stability limit for its courant factor — and placement says nothing about it."""
+    if not ("poles" in case and "target" in case):
+        return False
+    if any(p["type"] == "lorentz" and p["w"] >= 2.0 for p in case["poles"]):
+        return False  # rejected at placement by the isolated-pole rule, not part of the finding
+    return stability_margin(case["poles"], case["eps_inf"], case["courant"]) < MARGIN_CLASS
 
 
 KNOWN_CLASSES = {"C36-coupled-ade-courant-bound": overloaded_medium}
 
-TARGETS = [0.05, 0.2, 0.4, 0.6, 0.75, 0.85, 0.89, 1.05, 1.3, 3.0, 20.0]
+# targets for the load factor; 2 of 10 beyond the bound (plus the thin-margin corner courant 0.99 / eps_inf 1)
+TARGETS = [0.05, 0.2, 0.4, 0.5, 0.6, 0.75, 0.85, 0.89, 1.1, 3.0]
 
 
 @st.composite
@@ -378,6 +399,10 @@ def bounded_strategy(draw, ctx):
             poles.append({"type": "lorentz", "w": u["w"], "g": u["g"], "de": float("%.6g" % (u["de"] * k))})
         else:
             poles.append({"type": "drude", "wp": float("%.6g" % (u["wp"] * math.sqrt(k))), "g": u["g"]})
+    # a few media that the documented isolated-pole rule (w0 dt < 2) makes placement reject: they exercise the
+    # "accepted" premise from the other side (a tree that stops rejecting them lets them through to the run)
+    if draw(st.integers(0, 15)) == 0:
+        poles[0] = {"type": "lorentz", "w": draw(st.sampled_from([2.0, 2.6])), "g": poles[0]["g"], "de": 1.0}
     mask = None
     if draw(st.integers(0, 2)) == 0:
         lo, hi = [], []
@@ -393,7 +418,7 @@ def bounded_strategy(draw, ctx):
 
 
 def bounded_cases(ctx):
-    n = 24 if ctx.tier == "quick" else (160 if ctx.lane == "f32" else 360)
+    n = scaled(24 if ctx.tier == "quick" else (160 if ctx.lane == "f32" else 360), ctx)
     return collect(bounded_strategy(ctx), n, ctx.seed, salt=f"C36b/{ctx.lane}/{ctx.tier}")
 
 
@@ -411,9 +436,18 @@ def body_bounded(ctx, case):
             "background": {"eps": case["eps_bg"]}}
     lo, hi = (case["mask"]["lo"], case["mask"]["hi"]) if case["mask"] else ([0, 0, 0], list(shape))
     box = {"name": "medium", "lo": lo, "hi": hi, "order": 1, "eps": case["eps_inf"], "poles": case["poles"]}
-    load = load_factor(case["poles"], case["eps_inf"], case["courant"])
+    beyond_pole_rule = any(p["type"] == "lorentz" and p["w"] >= 2.0 for p in case["poles"])
+    if beyond_pole_rule:
+        load, margin = float("inf"), float("-inf")
+        ctx.classify("w0dt>=2")
+    else:
+        load = load_factor(case["poles"], case["eps_inf"], case["courant"])
+        margin = stability_margin(case["poles"], case["eps_inf"], case["courant"])
+    stable = margin >= MARGIN_CLASS
     ctx.classify("load=" + ("<0.5" if load < 0.5 else "0.5-0.8" if load < 0.8 else "0.8-0.9" if load < 0.9 else
                             "0.9-1" if load < 1 else "1-2" if load < 2 else ">=2"),
+                 "margin=" + ("<0 (beyond the coupled bound)" if margin < 0 else "0-0.008" if margin < MARGIN_CLASS else
+                              "0.008-0.05" if margin < 0.05 else "0.05-0.3" if margin < 0.3 else ">=0.3"),
                  "courant=%g" % case["courant"], "eps_inf=%g" % case["eps_inf"], "poles=%d" % len(case["poles"]),
                  "masked" if case["mask"] else "full-domain",
                  "walls=" + "".join(sorted(w[:3] for w in case["walls"])),
@@ -461,8 +495,8 @@ def body_bounded(ctx, case):
     ctx.nontrivial(True)
     fin = np.isfinite(en)
     finite_max = float(np.max(np.where(fin, en, 0.0))) / e0
-    ctx.metric("energy_ratio[load<0.9]" if load < 0.9 else "energy_ratio[load>=0.9]", min(finite_max, 1e300))
-    desc = (f"load factor {load:.3f} (poles {case['poles']}, eps_inf {case['eps_inf']}, courant {case['courant']}), "
+    ctx.metric("energy_ratio[margin>=0.008]" if stable else "energy_ratio[margin<0.008]", min(finite_max, 1e300))
+    desc = (f"stability margin {margin:.4f}, load factor {load:.3f} (poles {case['poles']}, eps_inf {case['eps_inf']}, courant {case['courant']}), "
             f"placement raised no warning")
     if not fin.all():
         k = int(np.argmax(~fin))
